@@ -387,6 +387,8 @@ class Reader:
             elif a == "cast":
                 value = self.parse_value_ref()
                 ins = ir.Cast(value, name, ty)
+            elif a == "undefined":
+                ins = ir.Undefined(name, ty)
             elif a == "call":
                 callee = self.parse_value_ref()
                 arguments = self.parse_function_arguments()
